@@ -30,6 +30,8 @@ def sim_cases():
         # workers replaced (death noticed and repaired) BEFORE close() - a
         # replacement's results must be credited like anybody else's
         g.die, g.grow,
+        # close() while the supervisor is starting a replacement
+        g.closerace,
         # a task that is still running long after the others are done
         g.slow, g.slow, g.run, g.straggle, g.straggle,
     ]
